@@ -384,7 +384,7 @@ def gen_syn_case(rng, cid, fam):
                 fp["foo"] = "baz"
             fill = -999.0 if rng.random() < 0.12 else None
             spec = field_spec(rng, gj, fp, rng.choice([None, "q", "ta", "new"]), 30 + 10 * k + j, gl=gl, fill=fill)
-            if rng.random() < 0.15:
+            if rng.random() < (0.5 if fill is not None else 0.15):
                 spec["via_file"] = True
             step.append(spec)
         appends.append(step)
